@@ -12,7 +12,8 @@
 (* S3 is modelled as the multipart store it is: parts by number, an object assembled from exactly  *)
 (* the parts listed (strictly ascending or InvalidPartOrder), at most one injected failure (the    *)
 (* faultAt-th API call).  The broker's answer to the produce request is an environment choice:     *)
-(* "ok" (error code 0), "perr" (per-partition error code), "conn" (connection closed, no reply).   *)
+(* "ok" (error code 0), "perr" (positive per-partition error code), "nerr" (negative code:         *)
+(* UNKNOWN_SERVER_ERROR = -1), "empty" (a reply naming no partition), "conn" (closed, no reply).   *)
 (* Sizes are in units of 1 MiB; digests are modelled as the sequence of <<part, len>> chunks        *)
 (* that went into the hasher / into the object (collision-free hashing).                           *)
 EXTENDS Integers, Sequences, FiniteSets, TLC, Json
@@ -25,17 +26,20 @@ CONSTANTS Sizes,          \* declared sizes of multipart sessions
           FixCheckReply,      \* TRUE: a per-partition error code in the produce reply is an error (repaired); FALSE: reply discarded (pinned tree)
           FixAllParts,        \* TRUE: completion must list exactly the uploaded parts (repaired); FALSE: any listed part just has to exist (pinned tree)
           FixHashAfterStore,  \* TRUE: running hash advanced after S3 accepted the part (repaired); FALSE: before, so a failed-then-retried part is hashed twice (pinned tree)
-          DevIgnoreCompleteErr  \* deviation: error of CompleteMultipartUpload ignored
+          DevIgnoreCompleteErr, \* deviation: error of CompleteMultipartUpload ignored
+          DevNegAck,            \* deviation: only positive partition error codes count as errors (UNKNOWN_SERVER_ERROR = -1 passes)
+          DevEmptyAck           \* deviation: a reply that names no partition counts as an acknowledgement
 VARIABLES phase, decl, parts, total, hashed, mpu, obj, s3calls, faultAt, http, final, env, ack, hist
 vars == <<phase, decl, parts, total, hashed, mpu, obj, s3calls, faultAt, http, final, env, ack, hist>>
 
 PS == 5      \* session part size = normalizeChunkSize(5 MiB)
 MIN == 5     \* minMultipartChunkSize
-Replies == {"ok", "perr", "conn"}
+Replies == {"ok", "perr", "nerr", "empty", "conn"}
+NoAck == 1000     \* the broker gave no code for the partition (no reply at all, or a reply without the partition)
 NoEnv == [size |-> 0, sha |-> <<>>]
 
 Init == /\ phase = "idle" /\ decl = 0 /\ parts = <<>> /\ total = 0 /\ hashed = <<>> /\ mpu = "none" /\ obj = <<>>
-        /\ s3calls = 0 /\ faultAt = 0 /\ http = 0 /\ final = FALSE /\ env = NoEnv /\ ack = -1 /\ hist = <<>>
+        /\ s3calls = 0 /\ faultAt = 0 /\ http = 0 /\ final = FALSE /\ env = NoEnv /\ ack = NoAck /\ hist = <<>>
 
 RECURSIVE SumLen(_)
 SumLen(s) == IF s = <<>> THEN 0 ELSE Head(s)[2] + SumLen(Tail(s))
@@ -49,8 +53,10 @@ Arm(k) == /\ hist = <<>> /\ k \in 1..MaxFault /\ faultAt' = k /\ Step([a |-> "Ar
           /\ UNCHANGED <<phase, decl, parts, total, hashed, mpu, obj, s3calls, http, final, env, ack>>
 
 \* produce the envelope record; result = <<http status, ack code>>
-Produce(reply) == CASE reply = "conn" -> <<502, -1>>
+Produce(reply) == CASE reply = "conn" -> <<502, NoAck>>
                     [] reply = "perr" -> <<IF FixCheckReply THEN 502 ELSE 200, 6>>
+                    [] reply = "nerr" -> <<IF FixCheckReply /\ ~DevNegAck THEN 502 ELSE 200, -1>>
+                    [] reply = "empty" -> <<IF FixCheckReply /\ ~DevEmptyAck THEN 502 ELSE 200, NoAck>>
                     [] OTHER -> <<200, 0>>
 
 \* ---- single request -------------------------------------------------------------------------
